@@ -176,7 +176,7 @@ type ReadSchedCase struct {
 	Release int    `json:"release_at"`           // 0 before CleanUp, 1 drain.enter, 2 evictNode.enter
 	Others  int    `json:"other_entries"`
 	Bound   int    `json:"maximum_size"`
-	Reader  int    `json:"read_kind"` // 0 GetIfPresent 1 GetEntry 2 Compute(cancel) 3 SetIfAbsent(present)
+	Reader  int    `json:"read_kind"` // 0 GetIfPresent 1 GetEntry 2 Compute(cancel) 3 SetIfAbsent(present) 4 SetExpiresAfter
 }
 
 var schedSites = sync.OnceValue(func() map[string]int {
@@ -229,8 +229,10 @@ func runReadSched(sc *ReadSchedCase) (violation string) {
 			c.GetEntry(k)
 		case 2:
 			c.Compute(k, func(old int, found bool) (int, otter.ComputeOp) { return 0, otter.CancelOp })
-		default:
+		case 3:
 			c.SetIfAbsent(k, 1)
+		default:
+			c.SetExpiresAfter(k, time.Duration(sc.TTL)) // an explicit extension instead of a read
 		}
 	}()
 	select {
@@ -495,7 +497,7 @@ func RunReadSched(col *core.Collector, tier string, seed uint64, shard, nshards 
 		sc.Later = tickNanos*int64(2+r.Intn(100)) + 1
 		sc.Release = r.Intn(3)
 		sc.Others = r.Intn(4)
-		sc.Reader = r.Intn(4)
+		sc.Reader = r.Intn(5)
 		if r.Chance(1, 3) {
 			sc.Bound = 10 + r.Intn(100)
 		}
